@@ -115,6 +115,7 @@ type kdcReqInfo struct {
 	addrs  []types.HostAddress
 	padata types.PADataSequence
 	crealm string // the client's realm when it is not the realm of the request
+	raw    []byte // the request as it arrived (AS: what the RFC 6806 section 11 checksum covers)
 }
 
 const clientPassword = "Pässword-1 with ünicode"
@@ -207,6 +208,18 @@ func mintKDCRepKey(rng *RNG, c repCase, rq kdcReqInfo, clientKey types.Encryptio
 	}
 	if c.encSRealm != "" {
 		enc.SRealm = c.encSRealm
+	}
+	if !c.tgs && rq.raw != nil && rq.padata.Contains(149) {
+		// RFC 6806 section 11: the request asked for it (PA-REQ-ENC-PA-REP): the enc-pa-rep flag, and in the sealed part
+		// a checksum of the request under the reply key (key usage 56) and an empty PA-FX-FAST
+		if et, e := crypto.GetEtype(clientKey.KeyType); e == nil {
+			if ck, e := et.GetChecksumHash(clientKey.KeyValue, rq.raw, 56); e == nil {
+				if pv, e := asn1.Marshal(types.PAReqEncPARep{ChksumType: et.GetHashID(), Chksum: ck}); e == nil {
+					types.SetFlag(&enc.Flags, 15)
+					enc.EncPAData = types.PADataSequence{{PADataType: 149, PADataValue: pv}, {PADataType: 136, PADataValue: []byte{}}}
+				}
+			}
+		}
 	}
 	eb, err := enc.Marshal() // application tag 25
 	if err != nil {
